@@ -498,6 +498,9 @@ def check_C01(tier, seed):
     else:
         parser_runs(rep, "sched", seed, "c01_", 14, 2500)
         parser_runs(rep, "sched", seed + 7, "c01r_", 14, 800, release=True)
+    # absolute rather than relative: the mutation neighbourhood, half of it in one read and half byte by byte, every run
+    # judged by the reference readings (a result that is wrong only for one way of delivering the bytes shows there)
+    ref_neighbourhood(rep, seed + 8, "c01n_")
     rep.cov["rule"] = ("model: DeferredReader design model (window content independent of the read schedule); traces: each "
                        "input under 6 schedules (1/2/3-byte and random reads, chunk sizes 1..64, Interrupted answers, "
                        "from_buf_reader with a prefilled BufReader): items and outcome (error line/column included) must "
